@@ -133,6 +133,85 @@ if exe:
             samples.append({'case': c.name, 'mode': mode, 'n': n, 'env': env,
                             'result': r.code()})
     shutil.rmtree(root, ignore_errors=True)
+    # ---- a reader that lags behind the parser: the input arrives through a
+    # pipe that pauses at a chosen byte, with one-word input buffers, so the
+    # header parser is suspended there and resumed by ANOTHER task invocation
+    # (state kept anywhere but in the parser state is lost).  Pauses are put
+    # around every stored CRC / header field of the file.
+    import subprocess
+    import threading
+    import time
+    import bzformat as B
+
+    def lagging(data, k, n, granul):
+        env = {kk: v for kk, v in os.environ.items()
+               if not kk.startswith('LBZIP2') and kk not in ('BZIP2', 'BZIP')}
+        env['LBZIP2_VERIF_IN_GRANUL'] = str(granul)
+        env['LBZIP2_VERIF_CHECK'] = '1'
+        p = subprocess.Popen([exe, '-d', '-n%d' % n], stdin=subprocess.PIPE,
+                             stdout=subprocess.PIPE, stderr=subprocess.PIPE,
+                             env=env)
+
+        def feed():
+            try:
+                p.stdin.write(data[:k])
+                p.stdin.flush()
+                time.sleep(0.12)
+                p.stdin.write(data[k:])
+            except OSError:
+                pass
+            finally:
+                try:
+                    p.stdin.close()
+                except OSError:
+                    pass
+        t = threading.Thread(target=feed)
+        t.start()
+        try:
+            out = p.stdout.read()
+            err = p.stderr.read()
+            rc = p.wait(timeout=120)
+        except subprocess.TimeoutExpired:
+            p.kill()
+            rc, out, err = 'timeout', b'', b''
+        t.join()
+        return rc, out, err
+    lag = [c for c in small if c.expect and 40 < len(c.data) < 1500]
+    lag = lag[:4 if ck.quick else 30]
+    ljobs = []
+    for c in lag:
+        try:
+            _, infos, meta_ = B.strict_decode(c.data, want_info=True, full=False)
+        except Exception:
+            continue
+        pts = set()
+        for bit in [i['bit_start'] for i in infos] + list(meta_['eos_bits']):
+            for d_ in (48, 64, 80):          # magic | crc hi | crc lo
+                pts.add((bit + d_) // 8)
+                pts.add((bit + d_ + 7) // 8)
+        pts = sorted(x for x in pts if 4 < x < len(c.data))
+        if ck.quick and len(pts) > 10:
+            pts = sorted(rng.sample(pts, 10))
+        for k in pts:
+            ljobs.append((c, k, rng.choice([1, 2, 4]), rng.choice([4, 4, 8])))
+    from concurrent.futures import ThreadPoolExecutor
+    with ThreadPoolExecutor(max_workers=12) as ex:
+        lres = list(ex.map(lambda j: lagging(j[0].data, j[1], j[2], j[3]), ljobs))
+    for (c, k, n, g), (rc, out, err) in zip(ljobs, lres):
+        evals += 1
+        hist['lagging-reader'] = hist.get('lagging-reader', 0) + 1
+        if rc != 0 or out != c.expect:
+            ck.violation(
+                'configuration-dependent result: case %s decoded through a '
+                'pipe that pauses at byte %d (input buffers of %d bytes, -n%d): '
+                'status %r, %d bytes (expected 0, %d), stderr %r' %
+                (c.name, k, g, n, rc, len(out), len(c.expect), err[:160]),
+                {'stream_hex': c.data.hex(), 'case': c.name, 'pause_at_byte': k,
+                 'n': n, 'env': {'LBZIP2_VERIF_IN_GRANUL': str(g)},
+                 'how': 'write stream[:k] to lbzip2 -d stdin, wait 0.12 s, '
+                        'write the rest'})
+        else:
+            nontriv += 1
 ck.log('modes:', hist)
 ck.finish({
     'evaluations': evals, 'distinct_nontrivial': nontriv,
